@@ -111,15 +111,26 @@ func (c *Ctx) rulePreorder(only ...string) {
 
 // R-NILVALUE: the presence of a value on a node is tested with nil, never with len()==0.
 func (c *Ctx) ruleNilValue(dirs ...string) {
-	c.doc("R-NILVALUE", "a node's StorageValue presence test compares with nil; comparing len(StorageValue) with 0 treats a stored empty value as absent")
+	c.doc("R-NILVALUE", "a node's StorageValue presence test compares with nil; comparing len(StorageValue) with 0 treats a stored empty value as absent, and comparing it with bytes.Equal treats `no value` and the empty value as the same value")
 	for _, dir := range dirs {
 		sp := c.ssaPkg(dir)
 		if sp == nil {
 			continue
 		}
 		for _, f := range allFuncs(c, sp) {
-			ordN, ordL := 0, 0
+			ordN, ordL, ordE := 0, 0, 0
 			eachInstr(f, func(_ *ssa.BasicBlock, _ int, in ssa.Instruction) {
+				if call, ok := in.(*ssa.Call); ok && calleeName(&call.Call) == "bytes.Equal" {
+					for _, a := range call.Call.Args {
+						if b, ok := isFieldLoadNamed(a, "StorageValue"); ok && isNodePtr(b.Type()) {
+							ordE++
+							c.ob("R-NILVALUE", fmt.Sprintf("%s:bytes.Equal-on-value#%d", relName(f.String()), ordE), call.Pos(), false,
+								shortFn(f)+" compares a node's StorageValue with bytes.Equal, which treats `no value` (nil) and the empty value as equal: writing an empty value over a value-less branch is taken for `unchanged` and dropped (Node.StorageValueEqual keeps the distinction)")
+							break
+						}
+					}
+					return
+				}
 				bo, ok := in.(*ssa.BinOp)
 				if !ok || !isCmp(bo.Op) {
 					return
